@@ -6,6 +6,7 @@ import (
 	"fmt"
 	"github.com/shurcooL/go-goon"
 	"github.com/ugorji/go/codec"
+	"math"
 	"reflect"
 	"sort"
 	"strings"
@@ -796,6 +797,12 @@ func SexpToGoStructs(
 	case *SexpFloat:
 		switch targVa.Elem().Interface().(type) {
 		case int64:
+			if src.Val != math.Trunc(src.Val) {
+				// 2.0 may stand for the integer 2 (decoders hand us
+				// floats), but 2.5 is not an integer: do not truncate
+				// it silently.
+				panic(fmt.Errorf("cannot store the non-integral number %v in an int64 field", src.Val))
+			}
 			targVa.Elem().SetInt(int64(src.Val))
 		case float64:
 			targVa.Elem().SetFloat(float64(src.Val))
@@ -811,7 +818,21 @@ func SexpToGoStructs(
 			// already did it. Return alreadyGoStruct.
 			cacheHit = true
 			vo := reflect.ValueOf(alreadyGoStruct).Elem()
-			targVa.Elem().Set(vo)
+			dst := targVa.Elem()
+			if !vo.Type().AssignableTo(dst.Type()) {
+				// the same record can sit in fields of different
+				// static types: an interface-typed field and a
+				// pointer field ([]*T), or a pointer and a struct
+				// value. Setting the cached value as it was failed
+				// with 'value of type Iface is not assignable to *T'.
+				switch {
+				case (vo.Kind() == reflect.Interface || vo.Kind() == reflect.Ptr) && !vo.IsNil() && vo.Elem().Type().AssignableTo(dst.Type()):
+					vo = vo.Elem()
+				case vo.CanAddr() && vo.Addr().Type().AssignableTo(dst.Type()):
+					vo = vo.Addr()
+				}
+			}
+			dst.Set(vo)
 
 			return target, nil
 		}
